@@ -25,10 +25,12 @@ class RevocationEndpoint(_RevocationEndpoint):
     def query_token(self, token, token_type_hint):
         """Query requested token from database."""
         token_model = self.server.token_model
-        if token_type_hint == "access_token":
-            rv = _query_access_token(token_model, token)
-        elif token_type_hint == "refresh_token":
+        # RFC 7009 section 2.1: the hint only says where to look first; when the
+        # token is not found there the search MUST be extended to the other types.
+        if token_type_hint == "refresh_token":
             rv = _query_refresh_token(token_model, token)
+            if not rv:
+                rv = _query_access_token(token_model, token)
         else:
             rv = _query_access_token(token_model, token)
             if not rv:
